@@ -115,6 +115,15 @@ def c15_matrix():
                 items.append({"what": "[%s, %s] : List<%s>" % (show(a), show(a), show(a)),
                               "src": "public fun f(a: %s, b: %s): List<%s> {\n  [a, b]\n}\n" % (show(a), show(a), show(a)),
                               "expect_error": False})
+    # an element whose type the checker could not determine (a field of an untyped parameter: `Error` inside) must
+    # not let two incompatible neighbours through: the combined type still has to cover the first and the last
+    for (a, b, mk) in (("[1]", "[\"a\"]", "[%s]"), ("Some(1)", "Some(\"a\")", "Some(%s)"), ("(1, 2)", "(\"a\", 2)", "(%s, 2)")):
+        items.append({"what": "[%s, %s, %s] with an unknown middle element" % (a, mk % "p.x", b),
+                      "src": "public fun f(p) {\n  let items = [%s, %s, %s]\n  items\n}\n" % (a, mk % "p.x", b),
+                      "expect_error": True})
+        items.append({"what": "if/else chain %s, %s, %s with an unknown middle branch" % (a, mk % "p.x", b),
+                      "src": "public fun f(p, c: Bool) {\n  let x = if c { %s } else { %s }\n  let y = if c { x } else { %s }\n  y\n}\n" % (a, mk % "p.x", b),
+                      "expect_error": True})
     # the combined type must be a supertype of EVERY element: if [a, closure] is accepted, then what can
     # be passed to an element of the list is at most what `a` accepts
     for (pa, ra) in ((INT, INT), (STR, INT), (("List", INT), STR)):
